@@ -48,6 +48,36 @@ CLAIMED = {
     "C27": ("exploration",
             "Localhost loopback traffic end to end plus, at seeded points, VerifyMembership/VerifyNonMembership for 09-localhost through the client router on a throw-away branch of the latest state with keys sampled from the store census, perturbed keys, wrong values and wrong proofs; verdicts must equal the census. Client operations addressed to 09-localhost must be refused with no state change.",
             "deterministic simulation: store-census reference model for localhost verification at seeded points of live histories", "8 C27"),
+    "C12": ("exploration",
+            "Handshake worlds: two real chains, several relayers submitting channel INIT/TRY/ACK/CONFIRM/CLOSE-INIT/CLOSE-CONFIRM for up to 7 concurrent handshakes in any order, repeated, with proofs at newest or stale heights; an attacker mutates identifiers (20-digit, leading-zero, upper-case sequences), orderings, versions, hops and ports. Object-free oracles: decoded channel ends after every block move only INIT->OPEN, TRYOPEN->OPEN, *->CLOSED (CLOSED terminal; ordering/hops/counterparty port immutable); every accepted TRY/ACK/CONFIRM/CLOSE-CONFIRM is justified by the counterparty's REAL end at the proven state version; two OPEN ends agree; v2 alias bookkeeping appears exactly at OPEN for UNORDERED channels.",
+            "deterministic simulation: seeded interleavings of competing handshake relayers + identifier/field mutation, ground-truth justification oracle", "8 C12"),
+    "C13": ("exploration",
+            "As C12 for connections, with version lists from a grammar (unknown identifiers, feature subsets, duplicates, empty sets, unknown features), delay periods, handshakes over the localhost client and channel opens on connections lacking the requested ordering. Connection ends move only INIT/TRYOPEN->OPEN and never leave OPEN; every accepted step is justified by the counterparty's real end (state, client pair, delay, versions); the version stored at TRY equals the specification's pick computed independently; nothing over localhost is accepted; channels open only on single-version connections supporting their ordering.",
+            "deterministic simulation: seeded handshake interleavings over a version-list grammar, independent negotiation model + ground-truth oracle", "8 C13"),
+    "C15": ("exploration",
+            "Long creation histories of clients, connections and channels on two chains incl. failed attempts, duplicate TRYs and restarts from the durable DB; every identifier handed out is unique per chain, passes the host validators and round-trips through Parse/Format; messages addressed to edge-shaped identifiers are refused.",
+            "deterministic simulation: creation histories with failed attempts and restarts, identifier census oracle", "8 C15"),
+    "C16": ("exploration",
+            "Client operations (honest / forged / mutated headers, misbehaviour, recovery through the real gov module) on three clients next to connection, channel and v2 counterparty state: an accepted client message's store diff lies inside clients/<target>/, a refused one changes nothing there, a recovery changes no namespace but the subject's. (The key-space collision half over the whole identifier alphabet is an input property and is not claimed.)",
+            "deterministic simulation: per-transaction store-diff confinement oracle over client-operation histories", "8 C16"),
+    "C20": ("exploration",
+            "Chain A hosts three tendermint clients (trusting 6 h / 40 h / 14 d) of chain B whose 4-10 validator keys the simulator owns: headers in any order, duplicates, gap filling, forks of stored heights signed by any power fraction, misbehaviour, clock walks that expire and prune old states. Store census every block: per (client, height) bytes go absent* value* absent*, removed only when expired; a different accepted header for a stored height leaves the value and freezes the client.",
+            "deterministic simulation: Byzantine-validator header schedules + simulated clock, consensus-state history oracle on the store census", "8 C20"),
+    "C21": ("exploration",
+            "Same worlds: after every block the status query equals the property's definition evaluated on the raw stored state at that block's time (clock jumps aimed at expiry -2s..+2s), latest height never decreases; every consumer (update, v1/v2 send, connection init, channel init, packet receive at a stored height) is attempted at seeded points and none may succeed unless the model status is Active.",
+            "deterministic simulation: simulated clock around expiry + freeze/recover faults, status reference model + consumer gating probes", "8 C21"),
+    "C22": ("exploration",
+            "Same worlds: census of every client namespace every block — exactly one processed-time, processed-height and iteration entry per consensus state and no orphans; ascending iteration equals the sorted heights; next/previous lookups return the true neighbours; a block prunes at most one state, the oldest, only if expired.",
+            "deterministic simulation: update/prune histories, sorted-set reference model vs client-store census and real iterators", "8 C22"),
+    "C23": ("exploration",
+            "Same worlds with fully signed headers for heights between stored neighbours whose times are shifted (+-1 s, +10 min, -1 h): stored timestamps strictly increase with height after every block; an accepted header that would break this freezes the client and is not stored.",
+            "deterministic simulation: validators signing headers with altered times in any submission order, monotonic-time invariant on the census", "8 C23"),
+    "C24": ("fault_enumeration",
+            "Every submitted header/misbehaviour is judged by an independent acceptance predicate (trusted validators hash, revision, height order, trusting period, clock drift, validator-set hash, commit-for-header, per-signature ed25519 verification giving >2/3 own power and >= trust level of trusted power) over honest headers, forks signed by 0, n/3, n/3+1, 2n/3, 2n/3+1, n of n validators, altered times, future heights, and honest headers with one field mutated by reflection. Accepted => predicate true; a client freezes on misbehaviour only if both headers pass and the pair is misbehaviour.",
+            "deterministic simulation: Byzantine validator subsets + reflective header mutation, independent verification predicate", "8 C24"),
+    "C25": ("exploration",
+            "MsgRecoverClient for every ordered pair of three clients (Active/Expired/Frozen via clock jumps and misbehaviour; matching and differing parameters; higher and lower heights) through the REAL gov module. Succeeds only if subject not Active, substitute Active, strictly higher, same parameters; afterwards the subject is unfrozen at the substitute's latest height and consensus state; no other client namespace changes. The upgrade half of the property is NOT decided (no simulated chain upgrade).",
+            "deterministic simulation: gov-driven recovery over client status histories, precondition model + post-state + confinement oracle", "8 C25"),
     "C30": ("exploration",
             "2-3 real chains in a line or mesh of ICS-20 channels (v1, v2-over-alias, v2 clients) with the real rate-limit -> packet-forward -> transfer stack; users move natives (incl. '/'-segmented names) and vouchers over several hops and back under dropped/duplicated/replayed/reordered/raced relays, invalid and blocked receivers, tight timeouts, restarts. After EVERY block: real change of every bank balance and supply == sum of the ICS-20 reference model's predictions for the committed transactions; per channel end and escrowed denomination: escrow (net of donations) == voucher supply on the peer + in flight; native supplies constant.",
             "deterministic simulation: multi-chain token traffic under relay faults, ICS-20 reference model + cross-chain conservation equations on real bank state", "8 C30"),
